@@ -233,7 +233,7 @@ func errValueOf(call *ssa.Call) ssa.Value {
 }
 
 func isErrorType(t types.Type) bool {
-	n, ok := t.(*types.Named)
+	n, ok := types.Unalias(t).(*types.Named)
 	return ok && n.Obj().Pkg() == nil && n.Obj().Name() == "error"
 }
 
